@@ -351,7 +351,9 @@ func faultsRun(ctx *Ctx, seq int, in faultsIn) (faultsObs, string, []string) {
 	if err != nil {
 		panic(err)
 	}
-	sensor.SetMovingAvg(45000)
+	if len(in.Plan) > 0 {
+		sensor.SetMovingAvg(float64(in.Plan[0].Temp)) // backend.go seeds the average with the first reading
+	}
 	sensors.RegisterSensor(sensor)
 	// curve
 	n := 0
